@@ -272,7 +272,7 @@ Lemma constructs_eq_new o x y : cms_simple y -> okR (constructs_eq New o x y).
 Proof.
   intro W. unfold constructs_eq. apply andR_ok; [apply sizes_eq_new|].
   destruct (negb _); eauto with c05.
-  destruct (match_groups_new o (f_cons y) (groups (f_cons x)) (groups (f_cons y))) as [t ->].
+  destruct (match_groups_new (nested o) (f_cons y) (groups (f_cons x)) (groups (f_cons y))) as [t ->].
   destruct t as [[aps ps]|]; eauto with c05.
   match goal with |- okR (match map_all_axes New [] [] ?a with _ => _ end) =>
     destruct (map_all_axes_new a [] []) as [t ->] end.
@@ -635,14 +635,14 @@ Qed.
 (* what Constructs.equals has established when it answers True *)
 Theorem axis_map_sound : forall o x y, constructs_eq New o x y = Ok true ->
   exists aps ps m01 m10,
-    match_groups New o (f_cons y) (groups (f_cons x)) (groups (f_cons y)) = Ok (Some (aps, ps)) /\
+    match_groups New (nested o) (f_cons y) (groups (f_cons x)) (groups (f_cons y)) = Ok (Some (aps, ps)) /\
     (forall ax0 ax1 a b,
        (In (ax0, ax1) aps \/ (f_daxes x = Some ax0 /\ f_daxes y = Some ax1)) ->
        In (a, b) (zip ax0 ax1) -> assoc a m01 = Some b /\ assoc b m10 = Some a).
 Proof.
   intros o x y H. unfold constructs_eq in H. apply andR_true in H. destruct H as [_ H].
   destruct (negb _); [discriminate|].
-  destruct (match_groups New o (f_cons y) (groups (f_cons x)) (groups (f_cons y))) as [[[aps ps]|]|e] eqn:G;
+  destruct (match_groups New (nested o) (f_cons y) (groups (f_cons x)) (groups (f_cons y))) as [[[aps ps]|]|e] eqn:G;
     try discriminate.
   simpl in H.
   match type of H with match map_all_axes New [] [] ?a with _ => _ end = _ =>
